@@ -413,6 +413,13 @@ func (t *relTotals) frag(rule string, ut *unitTotals) map[string]any {
 	return f
 }
 
+func errText(err error) string {
+	if err == nil {
+		return ""
+	}
+	return " (" + err.Error() + ")"
+}
+
 func docText(d JV) string { return string(d.plainJSON()) }
 
 // roundTripFlag checks the fixed-point half of C15 on one accepted document.
@@ -675,7 +682,7 @@ func checkC16(seed uint64, replayDir, corpusDir string) (map[string]any, int) {
 			t.counts["encode-paths/segment"]++
 			for k := range outs {
 				if errs[k] != nil || !json.Valid(outs[k]) {
-					t.violation("paths", names[k]+": encode error or invalid JSON", map[string]any{"segment": ws})
+					t.violation("paths", names[k]+": encode error or invalid JSON"+errText(errs[k]), map[string]any{"segment": ws})
 					return
 				}
 				if !sameJSONBytes(outs[0], outs[k]) {
